@@ -30,6 +30,9 @@ func main() {
 		fmt.Fprintln(os.Stderr, "unknown property", id)
 		os.Exit(2)
 	}
+	if os.Getenv("VERIF_INPROC") == "" {
+		supervise(id, os.Args[1:])
+	}
 	r := ev.New(id)
 	replay := ""
 	for i := 2; i < len(os.Args); i++ {
